@@ -542,6 +542,9 @@ func runC10(c *kit.Ctx) {
 		// ... in the order of the actions, and the reader consumes exactly what was written for each call
 		cellblocksInActionOrder(c, mtp)
 		multiDecodesEveryResult(c)
+		serialisingDoesNotChangeTheCall(c)
+		accumulatorIsHandedBack(c)
+		noResponseBufferRecycling(c)
 	}
 
 	c.StartRule("R3", "size function = bytes written = header lengths; reader's overhead constant = writer's", 5)
@@ -791,6 +794,7 @@ func runC10(c *kit.Ctx) {
 	// ---- R4 ---------------------------------------------------------------
 	c.StartRule("R4", "field widths and fixed header layout agree between writer and reader", 10)
 	guardsAreTight(c, bounds.New(p), []*ssa.Function{p.Func("hrpc", "", "cellFromCellBlock")})
+	decompressorRejectsOnlyMalformed(c)
 	// writer: no narrowing-then-widening conversion feeds a fixed-width write
 	var wOff []int64
 	var wWid []int
